@@ -422,6 +422,13 @@ func (w *World) Method(pkg, typ, name string) (*ssa.Function, error) {
 			}
 		}
 	}
+	// a method that became a plain function (rename.go)
+	if fo, found := funcByRef[w.Pkgs[pkg].PkgPath+"."+typ+"."+name]; found {
+		if f := w.Prog.FuncValue(fo); f != nil && len(f.Blocks) > 0 {
+			anchored[f] = true
+			return f, nil
+		}
+	}
 	return nil, anchorErr{pkg + "." + typ + "." + name}
 }
 
